@@ -20,7 +20,7 @@ NAMES = ["A", "B", "C-D e"]
 
 
 def bounds(tier):
-    return {"depth": 4 if tier == "quick" else 5, "values": 6 if tier == "quick" else 10}
+    return {"depth": 4 if tier == "quick" else 5, "values": 6 if tier == "quick" else 8}
 
 
 def values(n):
@@ -156,6 +156,48 @@ def check_opcode_dict(edit, read_first):
     return out
 
 
+class _NoRepr(object):
+    def __repr__(self):
+        raise RuntimeError("this object cannot be printed")
+
+    __str__ = __repr__
+
+
+def check_unprintable(form, kind):
+    """values that cannot be turned into text (an object whose __repr__ raises; an int beyond the interpreter's digit limit; an OpCode
+    whose code is no int): the enumeration stores and returns them like any value, and a refused add / remove is still a KeyError"""
+    from pyscsi.pyscsi.scsi_opcode import OpCode
+    from pyscsi.utils.enum import Enum
+    v = {"norepr": _NoRepr(), "hugeint": 1 << 20000, "nested": {"n": 1 << 20000}, "opcode_float": OpCode("X", 18.0, {})}[kind]
+    e = Enum({"A": v, "B": 2}) if form == "dict" else Enum(A=v, B=2)
+    out = []
+    where = "Enum with A = %s (%s form)" % (kind, form)
+    try:
+        e.add("A", 1)
+        out.append(("unprintable/readd_accepted", "%s: add of the existing name A was accepted" % where))
+    except KeyError:
+        pass
+    except Exception as ex:   # noqa: BLE001
+        out.append(("unprintable/readd_wrong_error", "%s: add of the existing name A raised %s instead of KeyError" % (where, type(ex).__name__)))
+    try:
+        e.remove("C")
+        out.append(("unprintable/remove_missing_accepted", "%s: remove of the missing name C was accepted" % where))
+    except KeyError:
+        pass
+    except Exception as ex:   # noqa: BLE001
+        out.append(("unprintable/remove_wrong_error", "%s: remove of the missing name C raised %s instead of KeyError" % (where, type(ex).__name__)))
+    try:
+        if e.A is not v or sorted(e.keys) != ["A", "B"] or e[2] != "B" or e[v] != "A":
+            out.append(("unprintable/state", "%s: names %r, A is the stored object: %s, reverse lookups %r / %r" % (where, sorted(e.keys), e.A is v, e[2], e[v])))
+        e.remove("A")
+        e.add("A", v)
+        if sorted(e.keys) != ["A", "B"] or e.A is not v:
+            out.append(("unprintable/state", "%s: after remove + add the names are %r" % (where, sorted(e.keys))))
+    except Exception as ex:   # noqa: BLE001
+        out.append(("unprintable/raises", "%s: lookups / remove / add raised %s: %s" % (where, type(ex).__name__, str(ex)[:80])))
+    return out
+
+
 def check_keys_alias(shape):
     """what `keys` hands out belongs to the caller: sorting, emptying or extending it, or walking it while adding / removing, leaves
     the enumeration agreeing with the dict that underwent the same operations"""
@@ -248,7 +290,8 @@ def check_names(form, name, shape):
 
 def partitions(tier):
     # chunk c explores the histories whose first operation has index c mod NCHUNK (de-duplication is per partition)
-    return [[i, c] for i in range(len(INITS)) for c in range(NCHUNK)] + [["names", 0]]
+    n = NCHUNK if tier == "quick" else 4 * NCHUNK
+    return [[i, c, n] for i in range(len(INITS)) for c in range(n)] + [["names", 0]]
 
 
 LOOKS = ("attrs", "copy", "inspect")
@@ -389,6 +432,8 @@ def run_case(case):
         return check_unicode(case[1], case[2])
     if case[0] == "keys_alias":
         return check_keys_alias(case[1])
+    if case[0] == "unprintable":
+        return check_unprintable(case[1], case[2])
     if case[0] == "opcode_dict":
         return check_opcode_dict(case[1], case[2])
     idx, hist, nv = case
@@ -437,6 +482,16 @@ def run_partition(part, tier, seed):
             for k, w in v:
                 acc.violation(k, w, case)
             acc.outcome((tuple(case), tuple(k for k, _ in v)))
+        for form in ("dict", "kw"):
+            for kind in ("norepr", "hugeint", "nested", "opcode_float"):
+                case = ["unprintable", form, kind]
+                acc.case(case, nontrivial=True, key=tuple(case))
+                v = check_unprintable(form, kind)
+                acc.transitions += 6
+                acc.traces += 1
+                for k, w in v:
+                    acc.violation(k, w, case)
+                acc.outcome((tuple(case), tuple(k for k, _ in v)))
         for n1 in UNICODE_NAMES:
             for n2 in UNICODE_NAMES:
                 case = ["unicode", n1, n2]
@@ -449,7 +504,8 @@ def run_partition(part, tier, seed):
                 acc.outcome((tuple(case), tuple(k for k, _ in v)))
         acc.stateset.add(hash("names"))
         return acc
-    idx, chunk = part
+    idx, chunk = part[0], part[1]
+    nchunk = part[2] if len(part) > 2 else NCHUNK
     ops = []
     for which in (0, 1):
         for n in NAMES:
@@ -472,7 +528,7 @@ def run_partition(part, tier, seed):
         if len(hist) >= depth:
             continue
         for opi, op in enumerate(ops):
-            if not hist and opi % NCHUNK != chunk:
+            if not hist and opi % nchunk != chunk:
                 continue
             h2 = hist + (op,)
             case = [idx, [list(o) for o in h2], b["values"]]
